@@ -3,10 +3,12 @@ package mon
 import (
 	"crypto/sha256"
 	"fmt"
+	"github.com/go-i2p/logger"
 	"go.step.sm/crypto/x25519"
 	"reflect"
 	"runtime"
 	"sort"
+	"strings"
 	"sync"
 	"sync/atomic"
 	"time"
@@ -626,6 +628,7 @@ func runC18(c *core.Ctx) {
 	}
 	c.SetExtra("accessors_per_value_per_sweep", po)
 	c18Independent(c)
+	c18ProcessState(c)
 }
 
 func firstDiffStr(a, b string) string {
@@ -645,4 +648,59 @@ func firstDiffStr(a, b string) string {
 		hb = len(b)
 	}
 	return fmt.Sprintf("before ...%s... after ...%s...", a[lo:ha], b[lo:hb])
+}
+
+// c18ProcessState: state the library shares with the rest of the process through its dependencies -
+// the one go-i2p logger every package logs to. With debug logging switched on (output discarded),
+// goroutines render and query shared values; afterwards the logger's level is what the application
+// set it to. (Read-only operations mutate no package-level state - not their own, not the logger's.)
+func c18ProcessState(c *core.Ctx) {
+	c.Job("process-state", c.N(4, 40), func(i int, r *core.Rand) {
+		lg := logger.GetGoI2PLogger()
+		if lg == nil {
+			return
+		}
+		before := lg.GetLevel()
+		want := []logger.Level{logger.DebugLevel, logger.TraceLevel}[i%2]
+		lg.SetLevel(want)
+		defer lg.SetLevel(before)
+		var vals []sharedValue
+		for _, sv := range c18Values(r) {
+			if strings.HasPrefix(sv.name, "RouterInfo/") || strings.HasPrefix(sv.name, "RouterAddress/") || strings.HasPrefix(sv.name, "LeaseSet2/parsed") || strings.HasPrefix(sv.name, "Destination/parsed0") {
+				vals = append(vals, sv)
+			}
+		}
+		if len(vals) == 0 {
+			return
+		}
+		c.Eval(1)
+		c.Nontrivial([]byte("process-state"), []byte(fmt.Sprint(i)))
+		const G = 12
+		var wg sync.WaitGroup
+		start := make(chan struct{})
+		for g := 0; g < G; g++ {
+			g := g
+			wg.Add(1)
+			go func() {
+				defer wg.Done()
+				defer func() { _ = recover() }()
+				<-start
+				for k := 0; k < 6; k++ {
+					sv := vals[(g+k)%len(vals)]
+					lib.Observe(sv.val, lib.ObserveOpts{Depth: 1})
+					for _, op := range sv.ops {
+						op()
+					}
+				}
+			}()
+		}
+		close(start)
+		wg.Wait()
+		if got := lg.GetLevel(); got != want {
+			c.Violate("process-wide logger", "package-level-state-changed-by-read-only-operations", gen.Shape{"level_set_by_application": fmt.Sprint(want), "level_afterwards": fmt.Sprint(got), "goroutines": G}, nil,
+				fmt.Sprintf("the application set the go-i2p logger to level %v; after %d goroutines rendered and queried shared values it is at level %v", want, G, got))
+			return
+		}
+		c.Bucket("process-state/logger-level-unchanged")
+	})
 }
